@@ -9,7 +9,7 @@ if os.path.exists(p):
         f = l.rstrip("\n").split("\t")
         res[f[0]] = [c.split(":")[0] for c in f[1:] if "VIOLATION" in c]
 rows = []
-for d in sorted(glob.glob(os.path.join(HERE, "seeded/C*-m*"))):
+for d in sorted(glob.glob(os.path.join(HERE, "seeded/C*-[mn]*"))):
     i = os.path.basename(d)
     m = json.load(open(os.path.join(d, "meta.json")))
     summ = re.sub(r"\s+", " ", str(m.get("summary", ""))).replace("|", "/")
